@@ -14,7 +14,8 @@ From Coq Require Import QArith.
 From SV Require Export Base.Bytes.
 
 (* ------------------------------------------------------------------ values, columns, rows *)
-Inductive pa_val := PaNum (q : Q) | PaStr (s : bytes) | PaNull.
+(* PaBool: a Go bool (only a GROUP BY key can carry one); it is a value of its own: not the string "true" *)
+Inductive pa_val := PaNum (q : Q) | PaStr (s : bytes) | PaNull | PaBool (b : bool).
 
 Inductive pa_agg := PaSum | PaAvg | PaMin | PaMax | PaCount.
 Inductive pa_op := PaAdd | PaSub | PaMul | PaDiv.
@@ -112,7 +113,10 @@ Definition pa_num_text (q : Q) : bytes :=
   end.
 Definition pa_nil_text : bytes := [60; 110; 105; 108; 62]%N.   (* "<nil>" *)
 Definition pa_order_string (v : pa_val) : bytes :=
-  match v with PaStr s => s | PaNum q => pa_num_text q | PaNull => pa_nil_text end.
+  match v with
+  | PaStr s => s | PaNum q => pa_num_text q | PaNull => pa_nil_text
+  | PaBool true => [116; 114; 117; 101]%N | PaBool false => [102; 97; 108; 115; 101]%N   (* "true" / "false" *)
+  end.
 
 (* compareOrderValues(a, aok, b, bok): a missing key sorts first; numbers numerically; everything
    else (string, nil, number against non-number) by the string rendering *)
@@ -164,6 +168,7 @@ Definition pa_val_eqb (a b : pa_val) : bool :=
   | PaNum x, PaNum y => Qeq_bool x y
   | PaStr s, PaStr t => bytes_eqb s t
   | PaNull, PaNull => true
+  | PaBool x, PaBool y => Bool.eqb x y
   | _, _ => false
   end.
 (* equality of the JSON serialisations: same keys with the same values. Rows of one batch are built
